@@ -605,6 +605,8 @@ func streamCLI(seed uint64, idx int) caseT {
 	}
 	if g.r.chance(20) {
 		expr = g.r.pick([]string{"a.", "[0", "abs(a)", "nosuchfn(a)", "length(a, a)", "`{`", "a ||", "'x", "\"a", "sort_by(@, &a)", "avg(`[]`)", "to_number('inf')", "a[::0]", "@", "a",
+			// a function applied after a dot to a null left side; raw control characters inside a quoted identifier (invalid)
+			"nosuchfield.type(@)", "a.nosuchfield.not_null(@, `1`)", "nosuchfield.abs(@)", "nosuchfield.to_array(@)", "\"a\tb\"", "\"a\nb\"", "a.\"x\x01y\"", "{\"k\x02\": a}",
 			// calls that are never evaluated: still a valid expression, the value is printed
 			"`1` || nosuchfn(@)", "`null` && length(@, @)", "`[]`[*].nosuchfn(@)", "`[]`[?nosuchfn(@)]", "'x' || abs()", "[`1` || abs('s'), `2`]", "`{}`.*.nosuchfn(@)"})
 	}
